@@ -333,40 +333,47 @@ theorem reserved_lists_agree : Gen.printerReserved = Gen.grammarReserved := by d
 
 /-! ### (3) statement start -/
 
+theorem protectDecide_paren (cs : List Char) : protectDecide ('(' :: cs) = false := by
+  simp [protectDecide, wordOperatorStart, List.isPrefixOf]
+
+theorem protectDecide_false {cs : List Char} (h : protectDecide cs = false) :
+    cs.head? ≠ some '-' ∧ wordOperatorStart cs = false := by
+  simp only [protectDecide, Bool.or_eq_false_iff, beq_eq_false_iff_ne, ne_eq] at h
+  exact h
+
 theorem protectStatementStart_head (s : String) :
     (protectStatementStart s).toList.head? ≠ some '-' := by
   unfold protectStatementStart
   split
   · simp
-  · rename_i hne
-    intro hh
-    cases hs : s.toList with
-    | nil => simp [hs] at hh
-    | cons c t =>
-      simp only [hs, List.head?_cons, Option.some.injEq] at hh
-      subst hh
-      exact hne t hs
+  · rename_i h
+    exact (protectDecide_false (by simpa using h)).1
 
-theorem protectStatementStart_id (s : String) (h : s.toList.head? ≠ some '-') :
-    protectStatementStart s = s := by
+/-- … nor does it start with `via` / `into` / `where` followed by a blank or a tab -/
+theorem protectStatementStart_word (s : String) :
+    wordOperatorStart (protectStatementStart s).toList = false := by
   unfold protectStatementStart
   split
-  · rename_i t hs
-    simp [hs] at h
-  · rfl
+  · simp [wordOperatorStart, List.isPrefixOf]
+  · rename_i h
+    exact (protectDecide_false (by simpa using h)).2
+
+theorem protectStatementStart_id (s : String) (h : s.toList.head? ≠ some '-')
+    (hw : wordOperatorStart s.toList = false) : protectStatementStart s = s := by
+  have : protectDecide s.toList = false := by
+    simp only [protectDecide, Bool.or_eq_false_iff, beq_eq_false_iff_ne, ne_eq]
+    exact ⟨h, hw⟩
+  simp [protectStatementStart, this]
 
 theorem protectStatementStart_minus (s : String) (h : s.toList.head? = some '-') :
     protectStatementStart s = "(" ++ s ++ ")" := by
-  unfold protectStatementStart
-  split
-  · rfl
-  · rename_i hne
-    cases hs : s.toList with
-    | nil => simp [hs] at h
-    | cons c t =>
-      simp only [hs, List.head?_cons, Option.some.injEq] at h
-      subst h
-      exact absurd hs (hne t)
+  have : protectDecide s.toList = true := by simp [protectDecide, h]
+  simp [protectStatementStart, this]
+
+theorem protectStatementStart_wordStart (s : String) (hw : wordOperatorStart s.toList = true) :
+    protectStatementStart s = "(" ++ s ++ ")" := by
+  have : protectDecide s.toList = true := by simp [protectDecide, hw]
+  simp [protectStatementStart, this]
 
 /-! ### (4) open-ended forms -/
 
